@@ -44,10 +44,72 @@ import (
 var run *common.Run
 
 // generous bound for one copy of a graph of at most ~20 small nodes
-const watchdog = 40 * time.Second
+const watchdog = 30 * time.Second
 
-// hangs counts watchdog expiries; generation stops after the second one (each costs the full watchdog)
+// a watchdog expiry is re-confirmed on a fresh destination with this (longer) bound before it is reported
+const watchdogConfirm = 45 * time.Second
+
+// hangs counts confirmed watchdog expiries; generation stops after the first one
 var hangs int
+
+// guarded runs attempt (which builds its own fresh destination) under the watchdog; an expiry is
+// reported only when a second attempt with the longer bound expires too (a loaded machine or a
+// slow disk must not look like a deadlock).
+func guarded(attempt func(ctx context.Context) error) (err error, hung bool) {
+	for _, bound := range []time.Duration{watchdog, watchdogConfirm} {
+		wctx, cancel := context.WithTimeout(context.Background(), bound)
+		err = attempt(wctx)
+		hung = wctx.Err() != nil
+		cancel()
+		if !hung {
+			return err, false
+		}
+		run.Count("watchdog-expired")
+	}
+	return err, true
+}
+
+// faultSrc fails the countdown-th source operation (Predecessors, Fetch, Referrers) with errInjected.
+type faultSrc struct {
+	content.ReadOnlyGraphStorage
+	countdown int
+	hit       bool
+	ops       int // operations seen
+}
+
+func (f *faultSrc) tick() error {
+	f.ops++
+	if f.countdown > 0 {
+		f.countdown--
+		if f.countdown == 0 {
+			f.hit = true
+			return errInjected
+		}
+	}
+	return nil
+}
+func (f *faultSrc) Fetch(ctx context.Context, d ocispec.Descriptor) (io.ReadCloser, error) {
+	if err := f.tick(); err != nil {
+		return nil, err
+	}
+	return f.ReadOnlyGraphStorage.Fetch(ctx, d)
+}
+func (f *faultSrc) Predecessors(ctx context.Context, d ocispec.Descriptor) ([]ocispec.Descriptor, error) {
+	if err := f.tick(); err != nil {
+		return nil, err
+	}
+	return f.ReadOnlyGraphStorage.Predecessors(ctx, d)
+}
+
+// faultLister keeps the ReferrerLister capability; a fault may also hit between two pages.
+type faultLister struct{ *faultSrc }
+
+func (f faultLister) Referrers(ctx context.Context, d ocispec.Descriptor, at string, fn func([]ocispec.Descriptor) error) error {
+	if err := f.tick(); err != nil {
+		return err
+	}
+	return f.ReadOnlyGraphStorage.(registry.ReferrerLister).Referrers(ctx, d, at, fn)
+}
 
 // ---------------------------------------------------------------- case description
 
@@ -59,7 +121,8 @@ type filterSpec struct {
 
 type caseSpec struct {
 	Graph    []dag.Encoded `json:"graph"`
-	Src      string        `json:"src"`   // mem | oci | ocireopen | file | remote-api | remote-tags
+	Src      string        `json:"src"`   // mem | oci | ocireopen | ocifs | file | remote-api | remote-tags
+	Incomplete bool        `json:"incomplete"` // remote: the registry omits artifactType / annotations of some referrers (not judged with filters)
 	Page     int           `json:"page"`  // remote-api: the registry's cap on a referrers page (0 = none)
 	ClientN  int           `json:"clientN"` // remote: Repository.ReferrerListPageSize (0 = not set)
 	Split    bool          `json:"split"` // remote-api: the registry serves pages shorter than cap / n, Link while items remain
@@ -71,6 +134,9 @@ type caseSpec struct {
 	PermSeed uint64        `json:"permSeed"`
 	Conc     int           `json:"conc"`
 	Raw      bool          `json:"raw"` // ExtendedCopyGraph reads the store directly (map order of Predecessors)
+	Fault    int           `json:"fault"`   // > 0: one more ExtendedCopyGraph in which the Fault-th source operation fails
+	Prefill  int           `json:"prefill"` // > 0: the destination starts with a link-closed subset (density in %) of the graph
+	StartStyle int         `json:"startStyle"` // descriptor style of the given node passed to findRoots / ExtendedCopyGraph
 	Dst      string        `json:"dst"` // mem | oci
 	DstRef   string        `json:"dstRef"`
 }
@@ -291,6 +357,7 @@ type graphTarget interface {
 type built struct {
 	store   graphTarget
 	cleanup func()
+	reg     *fakeRegistry // remote sources only
 }
 
 func startTag(i int) string { return fmt.Sprintf("t%d", i) }
@@ -308,7 +375,10 @@ func buildSource(g *dag.Graph, spec *caseSpec) (*built, error) {
 	var dir string
 	switch spec.Src {
 	case "remote-api", "remote-tags":
-		f := newFakeRegistry(g, spec)
+		f, ferr := newFakeRegistry(g, spec)
+		if ferr != nil {
+			return nil, ferr
+		}
 		repo, err := remote.NewRepository(f.host() + "/repo")
 		if err != nil {
 			f.srv.Close()
@@ -316,11 +386,11 @@ func buildSource(g *dag.Graph, spec *caseSpec) (*built, error) {
 		}
 		repo.PlainHTTP = true
 		repo.ReferrerListPageSize = spec.ClientN
-		return &built{store: repo, cleanup: f.srv.Close}, nil
+		return &built{store: repo, cleanup: f.srv.Close, reg: f}, nil
 	case "mem":
 		m := memory.New()
 		st, gt = m, m
-	case "oci", "ocireopen":
+	case "oci", "ocireopen", "ocifs":
 		d, err := os.MkdirTemp("", "c03-oci-")
 		if err != nil {
 			return nil, err
@@ -366,6 +436,15 @@ func buildSource(g *dag.Graph, spec *caseSpec) (*built, error) {
 		cleanup()
 		return nil, fmt.Errorf("tag start %d: %w", spec.Start, err)
 	}
+	if spec.Src == "ocifs" {
+		// the read-only store (its own loadIndex) over the layout just written
+		ro, err := oci.NewFromFS(ctx, os.DirFS(dir))
+		if err != nil {
+			cleanup()
+			return nil, fmt.Errorf("NewFromFS: %w", err)
+		}
+		gt = ro
+	}
 	if spec.Src == "ocireopen" {
 		o, err := oci.New(dir)
 		if err != nil {
@@ -400,6 +479,17 @@ func (r recLister) Referrers(ctx context.Context, d ocispec.Descriptor, artifact
 
 func keyOf(d ocispec.Descriptor) string {
 	return d.MediaType + "|" + d.Digest.String() + "|" + fmt.Sprint(d.Size)
+}
+
+// id maps a descriptor to its node; an unknown descriptor is remembered in r.bad (and mapped to -1)
+func (r *recSrc) id(d ocispec.Descriptor) int {
+	if i, ok := r.byKey[keyOf(d)]; ok {
+		return i
+	}
+	if r.bad == "" {
+		r.bad = "descriptor of no generated node: " + keyOf(d)
+	}
+	return -1
 }
 
 func newRec(inner content.ReadOnlyGraphStorage, g *dag.Graph, seed uint64) *recSrc {
@@ -558,6 +648,18 @@ func newDst(kind string) (oras.Target, func(), error) {
 		}
 		return o, func() { os.RemoveAll(d) }, nil
 	}
+	if kind == "file" {
+		d, err := os.MkdirTemp("", "c03-dstf-")
+		if err != nil {
+			return nil, nil, err
+		}
+		f, err := file.New(d)
+		if err != nil {
+			os.RemoveAll(d)
+			return nil, nil, err
+		}
+		return f, func() { f.Close(); os.RemoveAll(d) }, nil
+	}
 	return memory.New(), func() {}, nil
 }
 
@@ -582,7 +684,20 @@ func runCase(spec *caseSpec) {
 	}
 	fs := compileFilters(spec.Filters)
 	id := run.NewID()
-	fail := func(sig, msg string) { run.OracleFail(id, sig, msg, spec) }
+	// a registry that omits artifactType / annotations in its referrers listing is outside the
+	// property (the first filter on a ReferrerLister judges the served fields): with filters such a
+	// case is run for the correspondence only
+	notJudged := spec.Incomplete && isRemote(spec.Src) && len(fs) > 0
+	fail := func(sig, msg string) {
+		if notJudged && sig != "unexpected-error" && sig != "copy-hang" && sig != "predecessors-missing" && sig != "predecessor-unknown" {
+			run.Count("not-judged:" + sig)
+			return
+		}
+		run.OracleFail(id, sig, msg, spec)
+	}
+	if notJudged {
+		run.Count("not-judged-cases")
+	}
 	run.Count("src=" + spec.Src)
 	run.Count(fmt.Sprintf("filters=%d", len(fs)))
 	switch {
@@ -603,6 +718,7 @@ func runCase(spec *caseSpec) {
 	defer b.cleanup()
 	remoteTruth = isRemote(spec.Src)
 	defer func() { remoteTruth = false }()
+	reg := b.reg
 	rec := newRec(b.store, g, spec.PermSeed)
 	rec.keepOrder = remoteTruth
 	var hookSrc content.ReadOnlyGraphStorage = rec
@@ -655,11 +771,13 @@ func runCase(spec *caseSpec) {
 		}
 	}
 	if rec.bad != "" {
-		run.Count("source-unknown-descriptor")
+		// the source serves (or is asked for) something that is no node of the graph: a wrong
+		// predecessor descriptor would be walked / copied by ExtendedCopy
+		fail("predecessor-unknown", fmt.Sprintf("source %s: %s", spec.Src, rec.bad))
 		return
 	}
 
-	startDesc := g.Nodes[spec.Start].Desc
+	startDesc := descFor(g, g.Nodes[spec.Start], spec.StartStyle)
 	ftok := filtersTok(g, fs, served)
 	ntok := nodesTok(g, served, rec)
 	rtok := replayTok(spec)
@@ -682,13 +800,19 @@ func runCase(spec *caseSpec) {
 
 	// ---- findRoots through the hook
 	opts := buildOpts(spec, fs)
-	roots, err := oras.VerifFindRoots(ctx, hookSrc, startDesc, opts)
+	// (operations are counted: the fault stream below aims at the root-finding phase)
+	counter := &faultSrc{ReadOnlyGraphStorage: hookSrc}
+	var countedSrc content.ReadOnlyGraphStorage = counter
+	if remoteTruth {
+		countedSrc = faultLister{counter}
+	}
+	roots, err := oras.VerifFindRoots(ctx, countedSrc, startDesc, opts)
 	obs := "ERR"
 	var rootIDs []int
 	if err == nil {
 		seen := map[int]bool{}
 		for _, r := range roots {
-			seen[rec.byKey[keyOf(r)]] = true
+			seen[rec.id(r)] = true
 		}
 		rootIDs = sortedKeys(seen)
 		obs = "OK " + idsString(rootIDs)
@@ -748,7 +872,7 @@ func runCase(spec *caseSpec) {
 				var sb strings.Builder
 				sb.WriteString("P")
 				for _, p := range out {
-					pid := rec.byKey[keyOf(p)]
+					pid := rec.id(p)
 					got = append(got, pid)
 					fmt.Fprintf(&sb, " %d:%s:%s", pid, common.Hex(p.ArtifactType), annTok(p.Annotations))
 				}
@@ -762,6 +886,10 @@ func runCase(spec *caseSpec) {
 			sort.Ints(got)
 			want := filteredPreds(g, n.ID, fs)
 			if idsString(got) != idsString(want) {
+				if notJudged {
+					run.Count("not-judged:filter-exact")
+					continue
+				}
 				run.OracleFail(fid, "filter-exact", fmt.Sprintf("node %d: followed predecessors %v, those whose manifest satisfies the filter are %v (source %s)",
 					n.ID, got, want, spec.Src), spec)
 			}
@@ -770,7 +898,7 @@ func runCase(spec *caseSpec) {
 
 	// ---- a remote source asked for one artifact type (what a ReferrerLister offers): the
 	// registry may or may not filter itself; either way exactly the referrers of that type come back
-	if remoteTruth {
+	if remoteTruth && !spec.Incomplete {
 		if rl, ok := b.store.(registry.ReferrerLister); ok {
 			for _, n := range g.Nodes {
 				tp := truePreds(g, n.ID)
@@ -785,7 +913,7 @@ func runCase(spec *caseSpec) {
 					var got []int
 					err := rl.Referrers(ctx, n.Desc, at, func(rs []ocispec.Descriptor) error {
 						for _, d := range rs {
-							got = append(got, rec.byKey[keyOf(d)])
+							got = append(got, rec.id(d))
 						}
 						return nil
 					})
@@ -812,6 +940,29 @@ func runCase(spec *caseSpec) {
 	// ---- ExtendedCopyGraph
 	lower := g.Reach(spec.Start)
 	upper := unionReach(g, ancWithin)
+	// initial: what the destination held before the copy (link-closed subset)
+	initial := map[int]bool{}
+	if spec.Prefill > 0 {
+		initial = g.RandomClosedSubset(common.NewRand(spec.PermSeed+99), spec.Prefill)
+		if len(initial) > 0 {
+			run.Count("dst=prefilled")
+		}
+	}
+	mkDst := func() (oras.Target, func(), error) {
+		dst, clean, err := newDst(spec.Dst)
+		if err != nil {
+			return nil, nil, err
+		}
+		for _, n := range g.Nodes { // bottom-up
+			if initial[n.ID] {
+				if err := dst.Push(ctx, n.Desc, bytes.NewReader(n.Bytes)); err != nil {
+					clean()
+					return nil, nil, err
+				}
+			}
+		}
+		return dst, clean, nil
+	}
 	checkDst := func(what string, dst content.ReadOnlyStorage) {
 		for _, n := range g.Nodes {
 			if n.Foreign() {
@@ -848,7 +999,7 @@ func runCase(spec *caseSpec) {
 				fail("depth-own-graph-missing", fmt.Sprintf("%s: node %d of the given node's own graph is missing", what, n.ID))
 				return
 			}
-			if ok && !upper[n.ID] {
+			if ok && !upper[n.ID] && !initial[n.ID] {
 				sig := "copied-outside"
 				if spec.Limit > 0 {
 					sig = "depth-copied-outside"
@@ -858,47 +1009,106 @@ func runCase(spec *caseSpec) {
 			}
 		}
 	}
-	{
-		dst, clean, err := newDst(spec.Dst)
-		if err == nil {
-			var src content.ReadOnlyGraphStorage = hookSrc
-			if spec.Raw {
-				src = b.store
+	copyGraph := func(what string, src content.ReadOnlyGraphStorage, mayFail bool) {
+		var dst oras.Target
+		var clean func()
+		err, hung := guarded(func(wctx context.Context) error {
+			if clean != nil {
+				clean()
 			}
-			wctx, cancel := context.WithTimeout(ctx, watchdog)
-			err = oras.ExtendedCopyGraph(wctx, src, dst, startDesc, buildOpts(spec, fs))
-			hung := wctx.Err() != nil
-			cancel()
-			if hung {
-				hangs++
-				fail("copy-hang", fmt.Sprintf("ExtendedCopyGraph did not return within %v (Concurrency %d): %v", watchdog, spec.Conc, err))
-			} else if err != nil {
-				fail("unexpected-error", fmt.Sprintf("ExtendedCopyGraph failed on a complete source and empty destination: %v", err))
-			} else {
-				checkDst("ExtendedCopyGraph", dst)
+			var derr error
+			dst, clean, derr = mkDst()
+			if derr != nil {
+				clean = nil
+				return derr
 			}
-			clean()
+			return oras.ExtendedCopyGraph(wctx, src, dst, startDesc, buildOpts(spec, fs))
+		})
+		if clean == nil {
+			run.Count("destination-build-failed")
+			fmt.Fprintln(os.Stderr, "destination build failed:", err)
+			return
 		}
+		defer clean()
+		switch {
+		case hung:
+			hangs++
+			fail("copy-hang", fmt.Sprintf("%s did not return within %v, nor within %v on a second run (Concurrency %d): %v", what, watchdog, watchdogConfirm, spec.Conc, err))
+		case err != nil && mayFail:
+			run.Count("fault=error-surfaced")
+		case err != nil:
+			fail("unexpected-error", fmt.Sprintf("%s failed on a complete source: %v", what, err))
+		default:
+			checkDst(what, dst)
+		}
+	}
+	{
+		var src content.ReadOnlyGraphStorage = hookSrc
+		if spec.Raw {
+			src = b.store
+		}
+		copyGraph("ExtendedCopyGraph", src, false)
+	}
+	// ---- the same with one failing source operation: an error may surface; success still means the full closure
+	if spec.Fault > 0 && hangs == 0 {
+		// two thirds of the faults fall into findRoots (counter.ops operations), the rest into the copy phase
+		k := spec.Fault
+		if counter.ops > 0 && spec.Fault%3 != 0 {
+			k = 1 + spec.Fault%counter.ops
+		} else {
+			k = counter.ops + spec.Fault
+		}
+		fsrc := &faultSrc{ReadOnlyGraphStorage: hookSrc, countdown: k}
+		var src content.ReadOnlyGraphStorage = fsrc
+		if remoteTruth {
+			src = faultLister{fsrc}
+			if reg != nil && spec.Fault%2 == 0 {
+				// alternatively the registry itself answers a request with an error (also between two pages)
+				fsrc.countdown = 0
+				reg.arm(1 + spec.Fault%(counter.ops+2))
+			}
+		}
+		copyGraph("ExtendedCopyGraph with a failing source operation", src, true)
+		if fsrc.hit || (reg != nil && reg.fired()) {
+			run.Count("fault=hit")
+		} else {
+			run.Count("fault=not-reached")
+		}
+		if reg != nil {
+			reg.arm(0)
+		}
+	}
+	if rec.bad != "" {
+		fail("predecessor-unknown", fmt.Sprintf("source %s during the copy: %s", spec.Src, rec.bad))
 	}
 	// ---- ExtendedCopy (resolve, copy, tag); a registry tags manifests only
 	if hangs == 0 && (!remoteTruth || g.Nodes[spec.Start].IsManifest()) {
-		dst, clean, err := newDst(spec.Dst)
-		if err == nil {
-			eopts := oras.ExtendedCopyOptions{ExtendedCopyGraphOptions: buildOpts(spec, fs)}
-			type rgt interface {
-				content.ReadOnlyGraphStorage
-				content.Resolver
+		var dst oras.Target
+		var clean func()
+		var desc ocispec.Descriptor
+		err, hung := guarded(func(wctx context.Context) error {
+			if clean != nil {
+				clean()
 			}
-			var src rgt = b.store
-			wctx, cancel := context.WithTimeout(ctx, watchdog)
-			desc, err := oras.ExtendedCopy(wctx, src, startTag(spec.Start), dst, spec.DstRef, eopts)
-			hung := wctx.Err() != nil
-			cancel()
+			var derr error
+			dst, clean, derr = mkDst()
+			if derr != nil {
+				clean = nil
+				return derr
+			}
+			eopts := oras.ExtendedCopyOptions{ExtendedCopyGraphOptions: buildOpts(spec, fs)}
+			var cerr error
+			desc, cerr = oras.ExtendedCopy(wctx, b.store, startTag(spec.Start), dst, spec.DstRef, eopts)
+			return cerr
+		})
+		if clean == nil {
+			run.Count("destination-build-failed")
+		} else {
 			if hung {
 				hangs++
-				fail("copy-hang", fmt.Sprintf("ExtendedCopy did not return within %v (Concurrency %d): %v", watchdog, spec.Conc, err))
+				fail("copy-hang", fmt.Sprintf("ExtendedCopy did not return within %v, nor within %v on a second run (Concurrency %d): %v", watchdog, watchdogConfirm, spec.Conc, err))
 			} else if err != nil {
-				fail("unexpected-error", fmt.Sprintf("ExtendedCopy failed on a complete source and empty destination: %v", err))
+				fail("unexpected-error", fmt.Sprintf("ExtendedCopy failed on a complete source: %v", err))
 			} else {
 				checkDst("ExtendedCopy", dst)
 				want := spec.DstRef
@@ -1008,7 +1218,22 @@ func wrapperCase(resolves, graphOK, tagOK bool, srcRef, dstRef string) {
 			run.OracleFail(id, "not-tagged", fmt.Sprintf("ExtendedCopy(%q -> %q) succeeded but %q does not resolve to the given node", srcRef, dstRef, want),
 				map[string]any{"wrapper": []any{resolves, graphOK, tagOK, srcRef, dstRef}})
 		}
-		obs = "OK " + common.Hex(want) + "=7"
+		// observed from the destination: every candidate reference and what it resolves to
+		// (7 = the given node, as in the model's tag list)
+		var seen []string
+		for _, ref := range []string{srcRef, dstRef, "v1", "other"} {
+			if ref == "" || strings.Contains(strings.Join(seen, ","), common.Hex(ref)+"=") {
+				continue
+			}
+			if g2, e2 := dst.Resolve(ctx, ref); e2 == nil {
+				v := "X"
+				if g2.Digest == d.Digest {
+					v = "7"
+				}
+				seen = append(seen, common.Hex(ref)+"="+v)
+			}
+		}
+		obs = "OK " + strings.Join(seen, ",")
 	}
 	run.Case(id, fmt.Sprintf("XC %s %s %s %s %s", bit(resolves), bit(graphOK), bit(tagOK), common.Hex(srcRef), common.Hex(dstRef)), obs)
 	run.Count("wrapper")
@@ -1021,7 +1246,7 @@ var atRegexes = []string{"sbom", "sig$", `^application/vnd\.verif\.(sbom|doc)$`,
 	// literal, unanchored: substring matches (never an exact-match artifactType parameter)
 	"vnd.verif.s", "application/vnd.verif.sbo", "sig", "application/vnd.verif.sbom", "doc"}
 var annRegexes = []string{"alpha", "^(beta|gamma)$", "a$", "^$", ""}
-var annKeys = []string{"verif.key", "verif.key", "verif.key", "missing.key"}
+var annKeys = []string{"verif.key", "verif.key", "verif.key", "missing.key", "vnd.docker.reference.type", "verif.n"}
 
 func randomFilters(r *common.Rand) []filterSpec {
 	mk := func(kind string) filterSpec {
@@ -1064,7 +1289,8 @@ func randomGraph(r *common.Rand) *dag.Graph {
 
 func randomSpec(r *common.Rand, g *dag.Graph) *caseSpec {
 	spec := &caseSpec{Graph: g.Encode()}
-	spec.Src = common.Pick(r, []string{"mem", "oci", "ocireopen", "ocireopen", "file", "remote-api", "remote-tags"})
+	spec.Src = common.Pick(r, []string{"mem", "oci", "ocireopen", "ocireopen", "ocifs", "file", "remote-api", "remote-tags"})
+	spec.Incomplete = isRemote(spec.Src) && r.Chance(1, 5)
 	spec.Page = common.Pick(r, []int{0, 1, 2, 2, 3})
 	// client page size independent of the registry's cap: unset, smaller, equal, larger
 	spec.ClientN = common.Pick(r, []int{0, 0, 1, 2, 3, 10, 100})
@@ -1105,19 +1331,33 @@ func randomSpec(r *common.Rand, g *dag.Graph) *caseSpec {
 	} else {
 		spec.Start = common.Pick(r, cands)
 	}
-	spec.Limit = common.Pick(r, []int{0, 0, 0, 0, -1, 1, 1, 2, 2, 3, 4})
+	spec.Limit = common.Pick(r, []int{0, 0, 0, 0, -1, 1, 1, 2, 2, 3, 4, 5, 7})
+	if r.Chance(1, 3) {
+		spec.Prefill = common.Pick(r, []int{10, 30, 60})
+	}
+	spec.StartStyle = r.Intn(3)
 	spec.Filters = randomFilters(r)
+	if r.Chance(1, 3) || (len(spec.Filters) > 0 && r.Chance(1, 3)) {
+		spec.Fault = 1 + r.Intn(60)
+	}
 	spec.PermSeed = r.U64() % 1000000
 	spec.Conc = r.Intn(5)
 	spec.Raw = r.Chance(1, 3)
-	spec.Dst = common.Pick(r, []string{"mem", "mem", "oci"})
+	spec.Dst = common.Pick(r, []string{"mem", "mem", "oci", "file"})
 	spec.DstRef = common.Pick(r, []string{"", "copied", "v2"})
 	return spec
 }
 
 func main() {
 	run = common.Start("C03")
-	defer run.Finish()
+	defer func() {
+		run.Extra["coverage_floor_violations"] = floorViolations
+		run.Finish()
+		if len(floorViolations) > 0 {
+			fmt.Fprintln(os.Stderr, "COVERAGE FLOOR not met:", strings.Join(floorViolations, "; "))
+			os.Exit(4)
+		}
+	}()
 	run.Rule = "random OCI DAGs (3-16 nodes: referrer fans, indexes over referrers, shared sub-graphs, all five manifest kinds) x source kind x descriptor style x start node x Depth x filter stack; " +
 		"distinct = distinct (served predecessor table, start, depth, filter truth tables); non-trivial = a filter or a depth limit is set or the root set is not just the start node"
 	if run.Replay != "" {
@@ -1126,7 +1366,7 @@ func main() {
 	}
 	r := run.Rand
 	graphs := run.Scale(1500, 5000)
-	for i := 0; i < graphs && hangs < 2; i++ {
+	for i := 0; i < graphs && hangs < 1; i++ {
 		var g *dag.Graph
 		if i%3 == 2 {
 			g = fanGraph(r)
@@ -1165,6 +1405,7 @@ func main() {
 			}
 		}
 	}
+	coverageFloors()
 	for _, res := range []bool{true, false} {
 		for _, gok := range []bool{true, false} {
 			for _, tok := range []bool{true, false} {
@@ -1174,6 +1415,40 @@ func main() {
 			}
 		}
 	}
+}
+
+// coverageFloors: a run that silently lost a stream of cases must not pass.  Violations are a
+// failure of the harness run (layer R), reported after the statistics are written.
+var floorViolations []string
+
+func coverageFloors() {
+	if hangs > 0 {
+		return // generation was cut short on purpose
+	}
+	need := func(key string, min int) {
+		if run.Dist[key] < min {
+			floorViolations = append(floorViolations, fmt.Sprintf("%s: %d cases, at least %d expected", key, run.Dist[key], min))
+		}
+	}
+	zero := func(key string) {
+		if run.Dist[key] > 0 {
+			floorViolations = append(floorViolations, fmt.Sprintf("%s: %d (must be 0)", key, run.Dist[key]))
+		}
+	}
+	for _, k := range []string{"src=mem", "src=oci", "src=ocireopen", "src=ocifs", "src=file", "src=remote-api", "src=remote-tags"} {
+		need(k, 100)
+	}
+	need("graph=fan", 100)
+	need("referrers-by-type", 100)
+	need("fault=hit", 50)
+	need("fault=error-surfaced", 50)
+	need("dst=prefilled", 100)
+	need("filters=1", 300)
+	need("filters=2", 100)
+	need("depth=unlimited", 300)
+	zero("source-build-failed")
+	zero("destination-build-failed")
+	zero("watchdog-expired")
 }
 
 func replay(path string) {
@@ -1188,6 +1463,9 @@ func replay(path string) {
 		panic(err)
 	}
 	for _, c := range doc.Cases {
+		if hangs > 0 {
+			break // one confirmed hang is enough (each costs both watchdog bounds)
+		}
 		var probe map[string]json.RawMessage
 		if json.Unmarshal(c, &probe) != nil {
 			continue
